@@ -15,6 +15,7 @@ import (
 	"math/big"
 	"strings"
 	"sync"
+	"time"
 
 	"github.com/andybalholm/brotli"
 	"github.com/klauspost/compress/zstd"
@@ -278,7 +279,7 @@ func c21Encodings() *explore.Scenario {
 		adverts[uint16(a)] = [][]tls.CertCompressionAlgo{{a}, {other, a}, all}
 	}
 	return &explore.Scenario{
-		Name: "encoder-structures-x-sizes",
+		Name: "encoder-structures-x-sizes", Watchdog: 120 * time.Second, HangSig: "C21|hang",
 		Run: func(x *explore.X) (r explore.Result) {
 			e := encs[x.Choose("encoder", len(encs))]
 			cn := certNames[x.Choose("cert", len(certNames))]
@@ -320,7 +321,7 @@ func c21Lengths() *explore.Scenario {
 	lens := []lenCase{{"-1", func(n int) int { return n - 1 }}, {"-100", func(n int) int { return n - 100 }}, {"0", func(n int) int { return 0 }},
 		{"+1", func(n int) int { return n + 1 }}, {"+100", func(n int) int { return n + 100 }}, {"2^24-1", func(n int) int { return 1<<24 - 1 }}}
 	return &explore.Scenario{
-		Name: "declared-length-and-algorithm-lies",
+		Name: "declared-length-and-algorithm-lies", Watchdog: 60 * time.Second, HangSig: "C21|hang",
 		Run: func(x *explore.X) (r explore.Result) {
 			e := base[x.Choose("encoder", len(base))]
 			cn := []string{"small", "chain3"}[x.Choose("cert", 2)]
@@ -388,7 +389,7 @@ func c21Corruption(thorough bool) *explore.Scenario {
 	encs := c21Encoders()
 	base := []encoder{encs[3], encs[12+9], encs[len(encs)-1]} // zlib level1/flush0, brotli q5/lgwin10/flush0, zstd EncodeAll
 	return &explore.Scenario{
-		Name: "every-byte-corruption-and-truncation",
+		Name: "every-byte-corruption-and-truncation", Watchdog: 60 * time.Second, HangSig: "C21|hang",
 		Run: func(x *explore.X) (r explore.Result) {
 			e := base[x.Choose("encoder", len(base))]
 			mode := x.Choose("mode", 2) // 0 xor 0xff at pos, 1 truncate at pos
